@@ -4,7 +4,9 @@ package main
 
 import (
 	"encoding/json"
+
 	"fmt"
+	"golang.org/x/tools/go/ssa"
 	"os"
 	"os/exec"
 	"path/filepath"
@@ -45,6 +47,8 @@ func runExtras(eng *Engine, id, tier string, seed int64, work string) []extraRes
 		res = append(res, runBoundedCurves(eng, work, id, []string{"encode"}))
 	case "C14":
 		res = append(res, runBoundedCurves(eng, work, id, []string{"decode16.below-identity-margin"}))
+	case "C07", "C09":
+		res = append(res, checkRecovers(eng, id))
 	}
 	return res
 }
@@ -146,7 +150,7 @@ func runBoundedCurves(eng *Engine, work, id string, prefixes []string) extraResu
 	}
 	r.Bounded = map[string]interface{}{
 		"name": "curve tables vs published transfer functions", "label": "bounded (execution of the real code, not deduction)",
-		"domain": "complete: 256+65536 decode codes and 512+65536 encode table sample points per curve package",
+		"domain":     "complete: 256+65536 decode codes and 512+65536 encode table sample points per curve package",
 		"exhaustive": true, "evaluations": total, "checks": prefixes, "per_package": domains,
 		"oracle": "exact rational arithmetic (math/big), independent of math.Pow",
 	}
@@ -166,4 +170,114 @@ func runReplay(repo, path string) int {
 	}
 	fmt.Println(string(b))
 	return 0
+}
+
+// checkRecovers is a structural (dataflow) obligation: every function whose contract says
+// `recovers` installs, before any instruction that can panic, a deferred closure that calls
+// recover() and stores a non-nil error into the function's error result.
+func checkRecovers(eng *Engine, id string) extraResult {
+	r := extraResult{}
+	var keys []string
+	for k, fc := range eng.contracts {
+		if strings.Contains(k, "@") || !fc.Recovers || fc.Fn == nil {
+			continue
+		}
+		keys = append(keys, k)
+	}
+	sortStrings(keys)
+	for _, k := range keys {
+		fc := eng.contracts[k]
+		r.Obligations++
+		if msg := recoverInstalledFirst(eng, fc.Fn); msg != "" {
+			r.Failures = append(r.Failures, extraFailure{Name: k + "#recovers", Reason: "deferred recover is not installed before the first instruction that can panic", Detail: msg})
+		} else {
+			r.Discharged++
+			r.Samples = append(r.Samples, map[string]string{"structural": k + ": defer func(){ recover() ... err = ... }() precedes every panic-capable instruction"})
+		}
+	}
+	return r
+}
+
+func sortStrings(a []string) {
+	for i := range a {
+		for j := i + 1; j < len(a); j++ {
+			if a[j] < a[i] {
+				a[i], a[j] = a[j], a[i]
+			}
+		}
+	}
+}
+
+func recoverInstalledFirst(eng *Engine, fn *ssa.Function) string {
+	if len(fn.Blocks) == 0 {
+		return "no body"
+	}
+	for _, ins := range fn.Blocks[0].Instrs {
+		switch x := ins.(type) {
+		case *ssa.Defer:
+			var cl *ssa.Function
+			if mc, ok := x.Call.Value.(*ssa.MakeClosure); ok {
+				cl = mc.Fn.(*ssa.Function)
+			} else if f, ok := x.Call.Value.(*ssa.Function); ok {
+				cl = f
+			}
+			if cl == nil || !callsRecover(cl) {
+				return "first defer does not call recover()"
+			}
+			if !storesError(cl) {
+				return "recovering closure does not set the error result"
+			}
+			if fn.Recover == nil {
+				return "function has no recover block (results are not named)"
+			}
+			return ""
+		case *ssa.Alloc, *ssa.Store, *ssa.MakeClosure, *ssa.FieldAddr, *ssa.DebugRef, *ssa.MakeInterface, *ssa.ChangeInterface, *ssa.ChangeType:
+			continue
+		case *ssa.UnOp:
+			if x.Op.String() == "*" {
+				if _, isGlobal := x.X.(*ssa.Global); isGlobal {
+					continue
+				}
+				if _, isAlloc := x.X.(*ssa.Alloc); isAlloc {
+					continue
+				}
+			}
+			return "load through a possibly nil pointer before the recover is installed: " + x.String()
+		case *ssa.Call:
+			if f, ok := x.Call.Value.(*ssa.Function); ok && eng.isRepoPkg(f.Pkg.Pkg) && cannotPanic(f) {
+				continue
+			}
+			return "call before the recover is installed: " + x.String()
+		default:
+			return "instruction that may panic before the recover is installed: " + ins.String()
+		}
+	}
+	return "no defer in the entry block"
+}
+
+func storesError(cl *ssa.Function) bool {
+	for _, b := range cl.Blocks {
+		for _, ins := range b.Instrs {
+			if s, ok := ins.(*ssa.Store); ok && isErrorType(s.Val.Type()) {
+				if c, isConst := s.Val.(*ssa.Const); isConst && c.Value == nil {
+					continue // storing nil
+				}
+				return true
+			}
+		}
+	}
+	return false
+}
+
+func cannotPanic(f *ssa.Function) bool {
+	for _, b := range f.Blocks {
+		for _, ins := range b.Instrs {
+			switch ins.(type) {
+			case *ssa.Alloc, *ssa.Store, *ssa.FieldAddr, *ssa.DebugRef, *ssa.Return, *ssa.MakeInterface, *ssa.ChangeInterface:
+			default:
+				return false
+			}
+		}
+	}
+	return true
 }
